@@ -80,7 +80,7 @@ def _solve(job):
 
 
 RETRY_TIMEOUT = 30
-GEN_LIMIT = int(os.environ.get('VERIF_GEN_LIMIT', '600'))     # seconds of VC generation per function
+GEN_LIMIT = int(os.environ.get('VERIF_GEN_LIMIT', '600'))     # seconds of VC generation per function (thorough: 2400)
 
 
 def run_contract_obligations(keys, tier, nproc, kinds=None):
@@ -126,6 +126,9 @@ def main():
     args = ap.parse_args()
     pid = args.property
     tier = args.tier if args.tier in ('quick', 'thorough') else 'quick'
+    global GEN_LIMIT
+    if tier == 'thorough' and 'VERIF_GEN_LIMIT' not in os.environ:
+        GEN_LIMIT = 2400
     seed = int(os.environ.get('VERIF_SEED', '0') or 0)
     t_start = time.time()
     scratch = os.path.join(HERE, 'scratch', pid)
@@ -145,9 +148,11 @@ def main():
     from contracts import build_world
     world = build_world()
     keys = sorted(set(world.property_funcs.get(pid, [])) | set(prop.get('extra_functions', [])))
+    if tier != 'thorough':
+        keys = [k for k in keys if k not in world.thorough_only]
     frames_only = bool(prop.get('frames_of'))
     for other in prop.get('frames_of', []):
-        keys = sorted(set(keys) | set(world.property_funcs.get(other, [])))
+        keys = sorted(set(keys) | set(k for k in world.property_funcs.get(other, []) if tier == 'thorough' or k not in world.thorough_only))
     rep = report.Report(pid, tier, seed, prop)
 
     # ---- B drivers are started first and run beside the solvers (collected below)
